@@ -12,8 +12,8 @@ def add(pid, technique, text, note, ref):
     CHECKS[pid] = (technique, text, note, ref)
 
 add("C01", "runtime monitor: hostile-workload totality oracle, worker processes with CPU watchdog",
-    "Every entry point is driven with tag-soup trees, every/sampled element of generated pages as attached and detached root, 24 kinds of hand-built roots, structure-aware byte mutations through ApplyForReader/ApplyForFile, hostile pagers, size stress and all option shapes; each call runs under recover() inside a worker process whose death, and whose CPU consumption per case (60 s bound), the parent observes. Oracle: no panic, no process death, bounded CPU, err != nil or Result.Node is a <div>. Held on ~50k (quick) / ~1.2M (thorough) calls; termination is decided as bounded progress only.",
-    "Trusted: Go runtime's recover/rusage, the journal that names the case in flight. Inputs are <= ~1 MB and <= 2000 nesting levels; cyclic graphs and nil roots are outside the contract.",
+    "Every entry point is driven with tag-soup trees, every/sampled element of generated pages as attached and detached root, 24 kinds of hand-built roots, structure-aware byte mutations through ApplyForReader/ApplyForFile, hostile pagers, an insertion-mode stress family of the HTML parser through seven text-parsing routes, byte streams in 14 non-UTF-8 encodings, size stress (incl. flat runs of 1.4 million siblings under a 250 MB stack limit) and all option shapes; each call runs under recover() inside a worker process whose death, and whose CPU consumption per case (60 s bound), the parent observes. Oracle: no panic, no process death, bounded CPU, err != nil or Result.Node is a <div>. Held on ~50k (quick) / ~1.2M (thorough) calls; termination is decided as bounded progress only. Four open known findings (one root cause: an endless loop in html.Parse of the pinned golang.org/x/net v0.10.0, signed by the call site of the hang) are listed in known_findings.txt and printed as KNOWN-FINDING lines.",
+    "Trusted: Go runtime's recover/rusage, the journal that names the case in flight. Inputs are <= ~1 MB and <= 2000 nesting levels (flat runs <= 5.6 MB); cyclic graphs and nil roots are outside the contract.",
     "DESIGN.md §5 C01")
 add("C02", "runtime monitor: token-ledger oracle over generated pages",
     "Every word of every generated page is a unique token whose visibility is known by construction; the monitor observes Result.Text and the text nodes of Result.Node of each execution and flags invented, non-visible, duplicated or reordered tokens. Held on the executions produced (thousands of pages, >1M emitted tokens per quick run), not a proof.",
@@ -32,7 +32,7 @@ add("C05", "runtime monitor: walk of the distilled tree with attribute-noise sta
     "Trusted: the walk; the definition of the placeholder wrapper as div.embed-placeholder.",
     "DESIGN.md §5 C05")
 add("C06", "runtime monitor: URL ledger with expectations by construction (independent RFC 3986 resolution)",
-    "Every URL-carrying attribute of every generated page is a reference of a known form with a unique id; each URL found in Result.Node (outside placeholders) and in ContentImages is matched by id against the value expected by construction for 5 page URLs and 11 reference forms. Held on ~50k URLs per quick run.",
+    "Every URL-carrying attribute of every generated page is a reference of a known form with a unique id; each URL found in Result.Node (outside placeholders) and in ContentImages is matched by id against the value expected by construction for 5 page URLs and 26 reference forms (relative, padded, escaped, case-variant schemes, decomposed/soft-hyphen, raw UTF-8). Held on ~50k URLs per quick run.",
     "Trusted: the harness' resolver for exactly the generated forms; ids never collide; srcset candidates contain no commas.",
     "DESIGN.md §5 C06")
 add("C07", "runtime monitor: ancestor-chain and table-completeness oracle against the parsed source",
@@ -52,7 +52,7 @@ add("C10", "runtime monitor: deep before/after snapshots of caller-owned trees, 
     "Trusted: the snapshot covers everything html.Node exposes; loopback networking works in the sandbox.",
     "DESIGN.md §5 C10")
 add("C11", "runtime monitor: repeated-run and cross-process result equality (map-order / history independence), entry-point equivalence",
-    "Each input runs R times in one process (R=8/40 for pagination-bearing inputs) alternating the three entry points, and once more in another worker process in reverse order; all result fields except TimingInfo must be equal. Probabilistic per input for map-order dependence (bounds in DESIGN.md); held on ~20k repetition comparisons and ~3k cross-process pairs per quick run.",
+    "Each input runs R times in one process (R=8/40 for pagination-bearing inputs) alternating the three entry points, and once more in another worker process in reverse order; all result fields except TimingInfo must be equal; byte inputs in legacy charsets and sparse UTF-8 are repeated 24/60 times (charset guess), and a page in NFD and in NFC form must give the same result through the byte entry points. Probabilistic per input for map-order dependence (bounds in DESIGN.md); held on ~20k repetition comparisons and ~3k cross-process pairs per quick run.",
     "Trusted: Go re-randomises map iteration per range statement; field-wise comparison with nil = empty slice.",
     "DESIGN.md §5 C11")
 add("C12", "Go race detector (-race build, halt_on_error=0, log scan) + isolation oracle (concurrent result = sequential result) with measured overlap",
@@ -80,11 +80,11 @@ add("C17", "runtime monitor: exhaustive enumeration of the conventional-pager gr
     "Trusted: canonical URL comparison. Nothing is demanded of a prev/next side without a labelled anchor.",
     "DESIGN.md §5 C17")
 add("C18", "runtime monitor: reference implementation of the cascade vs black-box observation (<table> in output), exhaustive grid in thorough",
-    "Tables are generated from feature vectors; the reference cascade (30 lines) predicts data/layout; observation is the presence of a <table> element in Result.Node. thorough enumerates the full cross product (1.1M vectors incl. placements), quick covers all single settings, all pairs of settings of two dimensions and a biased sample. Every rule of the cascade is observed deciding.",
+    "Tables are generated from feature vectors; the reference cascade (30 lines) predicts data/layout; observation is whether the tokens of the table under test sit inside a <table> element of Result.Node (another table may precede it in the document). thorough enumerates the full cross product (11.5M vectors incl. placements), quick covers all single settings, all pairs of settings of two dimensions and a biased sample. Every rule of the cascade is observed deciding.",
     "Trusted: the reference implementation of the stated cascade; the observer (a layout table never serialises as <table> outside list items, which are not generated).",
     "DESIGN.md §5 C18")
 add("C19", "runtime monitor: host/path/carrier grid with true host and id known by construction",
-    "28 hosts (allow-listed, subdomains, look-alikes, userinfo tricks, case/port/trailing dot) x 14 path shapes x 5 source forms x 5 carriers = 9,800 cases every run: a placeholder only for a truly allow-listed host, with the service as data-type and the URL's id as data-id; no bare iframe survives. Exhaustive over the stated grid in quick; thorough repeats it inside random articles.",
+    "30 hosts (allow-listed, subdomains, look-alikes, userinfo tricks, case/port/trailing dot) x 19 path shapes x 8 source forms x 11 carriers = 50,160 cases every run: a placeholder only for a truly allow-listed host, with the service as data-type and the URL's id as data-id; no bare iframe survives. Exhaustive over the stated grid in quick; thorough repeats it inside random articles.",
     "Trusted: the harness' notion of the true host and of 'the id taken from the URL' (last path segment; data-tweet-id for rendered tweets).",
     "DESIGN.md §5 C19")
 add("C20", "runtime monitor: metamorphic triple (page, marked subtrees deleted, markers neutralised) with feedback-steered threshold sweep",
